@@ -97,6 +97,8 @@ def rootScope (st : St) (callerScope : List (String × V)) : Frames × St :=
 def glomTop (p : Prims) (fuel : Nat) (spec : Spec) (target : V) (callerScope : List (String × V))
     (st : St) : St × Except Err V :=
   let (root, st0) := rootScope st callerScope
-  valOf (interp p fuel spec target root st0)
+  match interp p fuel spec target root st0 with
+  | (st', .ok r) => (st', .ok r.1)
+  | (st', .error e) => (st', .error e)
 
 end Glom.Interp
